@@ -46,7 +46,13 @@ public:
                 return lhs.end < rhs;
             });
 
-        assert(search != std::end(ranges) && "Offset is out of range");
+        if(search == std::end(ranges))
+        {
+            // offsets are reported relative to the parser's buffer which is
+            // bigger than the file itself when the document was converted from
+            // a different encoding. Report the last line in this case
+            return {path, ranges.size(), 1};
+        }
 
         const auto line =
             static_cast<std::size_t>(search - std::begin(ranges) + 1);
